@@ -219,7 +219,9 @@ func (sc *SubCache[EntityT, ExcerptT, CacheT]) Build() <-chan BuildEvent {
 			Event:    BuildEventStarted,
 		}
 
+		sc.mu.Lock()
 		sc.excerpts = make(map[entity.Id]ExcerptT)
+		sc.mu.Unlock()
 
 		allEntities := sc.actions.ReadAllWithResolver(sc.repo, sc.resolvers())
 
@@ -255,9 +257,15 @@ func (sc *SubCache[EntityT, ExcerptT, CacheT]) Build() <-chan BuildEvent {
 			}
 
 			cached := sc.makeCached(e.Entity, sc.entityUpdated)
-			sc.excerpts[e.Entity.Id()] = sc.makeExcerpt(cached)
+			excerpt := sc.makeExcerpt(cached)
+
+			// The sub-caches are built concurrently and resolve entities from each other
+			// (a bug resolves its authors from the identity sub-cache): the maps are shared.
+			sc.mu.Lock()
+			sc.excerpts[e.Entity.Id()] = excerpt
 			// might as well keep them in memory
 			sc.cached[e.Entity.Id()] = cached
+			sc.mu.Unlock()
 
 			indexData := sc.makeIndexData(cached)
 			if err := indexer(e.Entity.Id().String(), indexData); err != nil {
